@@ -10,7 +10,7 @@ from harness import core
 from harness.core import Outcome
 
 ID = "C20"
-LEAN_TARGETS = ["BeyondVerif.Props.C20", "BeyondVerif.Witness.C20"]
+LEAN_TARGETS = ["BeyondVerif.Props.C20", "BeyondVerif.Props.C20Forest", "BeyondVerif.Witness.C20"]
 THEOREMS = [
     "BeyondVerif.C20.path_valid_chain",
     "BeyondVerif.C20.nbrs_iff_linked",
@@ -20,14 +20,26 @@ THEOREMS = [
     "BeyondVerif.C20.scales_routing_exact",
     "BeyondVerif.C20.orient_routing_exact",
     "BeyondVerif.C20.small_forests_exact",
+    "BeyondVerif.C20.forest_routes_exact",
+    "BeyondVerif.C20.forest_build_succeeds",
+    "BeyondVerif.C20.forest_routes_exact_bounded",
+    "BeyondVerif.C20.forest_path_unique",
+    "BeyondVerif.C20.forest_tables_exact",
+    "BeyondVerif.C20.forest_routingExact",
+    "BeyondVerif.C20.new_registration_preserves",
+    "BeyondVerif.Node.refreshRoutes_spec",
     "BeyondVerif.C20W.pentagon_not_shortest",
 ]
 LEVEL_TEXT = ("Lean theorems over the routing model: for every insertion history (any graph, order, orientation) each returned path is a chain of "
-              "inserted links from source to goal (path_valid_chain, by induction over histories); the three built-in graphs, regenerated from the "
-              "source in execution order each run, route all ordered pairs along the unique simple chain (decide); all forest histories on <=4 nodes "
-              "exact (kernel decide). Exact differential correspondence of the model with the real Node class on exhaustive/random histories.")
-LEVEL_NOTE = ("forest exactness for arbitrary size is an open obligation (enumerated on the real code instead); shortest-chain clause is false of the code "
-              "(known finding, pinned); model hand-written, tied by correspondence; Lean kernel + propext/Classical.choice/Quot.sound")
+              "inserted links from source to goal (path_valid_chain); for EVERY forest history of any size (each link joins two components; any order, "
+              "either orientation) the incremental tables route every connected pair along the unique simple chain of inserted links and report Unknown "
+              "for every unconnected pair, fuel >= number of nodes always suffices (forest_routes_exact, forest_routes_exact_bounded, forest_path_unique, forest_tables_exact, "
+              "forest_routingExact, by induction over histories with a traversal invariant for _update); linking a fresh leaf changes no existing route "
+              "(new_registration_preserves); the three built-in graphs, regenerated from the source in execution order each run, and all forest "
+              "histories on <=4 nodes are additionally checked by (kernel) decide. Exact differential correspondence of the model with the real Node "
+              "class on exhaustive/random histories.")
+LEVEL_NOTE = ("shortest-chain clause for cyclic graphs is false of the code (known finding, pinned); model hand-written, tied by correspondence; "
+              "Lean kernel + propext/Classical.choice/Quot.sound")
 TECHNIQUE = "Lean 4 proof by induction over insertion histories + kernel decide on regenerated graphs; exact model/implementation correspondence"
 TRUSTED = [
     "harness/extract_graphs.py: records every Node.__add__ executed at import of beyond (execution order) -> Generated/Graphs.lean",
@@ -35,9 +47,8 @@ TRUSTED = [
 ]
 ASSUMPTIONS = [
     "the model Model/Node.lean is hand-written; it is tied to beyond/utils/node.py by the exact correspondence run only",
-    "uniqueness of simple paths in a tree is used informally to read 'simple valid chain' as 'the unique chain'",
 ]
-OPEN = ["forest_routes_exact for forests of arbitrary size (proved: all histories on <= 4 nodes by kernel decide; enumerated on the real code up to 6-8 nodes; the general statement is not proved)"]
+OPEN = []
 NOT_COVERED = ["'a shortest chain in general' is false of the current code (known finding C20-cyclic-nonshortest)"]
 RULE = ("correspondence: exhaustive enumeration of forest insertion histories (all orders, all orientations, every prefix) "
         "on n<=5 (quick) / n<=6 (thorough) nodes plus random forests (<=40 nodes) and random cyclic graphs; a case is non-trivial "
